@@ -43,7 +43,7 @@ def reqs : List ReqView :=
 def capss : List (List String × List String) :=
   [([], []), (["x"], ["v"]), (["x"], ["w"]), (["x", "y"], ["v", "w"]), (["y", "x"], ["v", "v"]), (["x"], ["a%2Fb"]), (["x"], ["a%2fb"])]
 
-def q (s : String) : String := "\"" ++ s ++ "\""
+def q (s : String) : String := "\"" ++ (s.replace "\n" " ").replace "\"" "'" ++ "\""
 
 def main : IO Unit := do
   let mut n := 0
@@ -59,7 +59,7 @@ def main : IO Unit := do
                 let mdl := routeMatches r rq keys caps
                 if src != some mdl && n < 20 then
                   n := n + 1
-                  IO.println s!"\{\"src\": {q (toString (repr src))}, \"model\": {mdl}, \"route\": {q (toString (repr r)).replace "\n" " "}, \"req\": {q (toString (repr rq)).replace "\n" " "}, \"keys\": {q (toString keys)}, \"caps\": {q (toString caps)}}"
+                  IO.println s!"\{\"src\": {q (toString (repr src))}, \"model\": {mdl}, \"route\": {q (toString (repr r))}, \"req\": {q (toString (repr rq))}, \"keys\": {q (toString keys)}, \"caps\": {q (toString caps)}}"
   IO.println s!"\{\"differing\": {n}}"
 """
 
@@ -92,7 +92,7 @@ def _report(R):
     named = tie.named(res)
     payload = {"lean_log": res["log"], "failed": res["failed"], "theorems": res["failed_theorems"], "kind": "src-vs-model"}
     rc, rows, log = tie.run_lean(R, TIE, PROP, "c03src_search.lean", SEARCH)
-    if rc is None:
+    if rc is None or rc != 0:
         R.violation("the Lean translation of the route matchers (Gen/MatcherSrc.lean) or its instantiation with the "
                     "model's routes (Model/MatcherSrc.lean) does not compile: " + log[-600:], dict(payload, lean_log=log),
                     no_input=True)
